@@ -1,6 +1,6 @@
 //! C18 — peer registry and aliases stay mutually consistent (sequential part).
 //! Real `repe::PeerRegistry` driven by every history over insert/remove/alias
-//! on 3 peers and 3 keys; after every step all observers and all four broadcast
+//! on 3 peers and 3 keys; after every step all observers and all nine broadcast
 //! encodings are compared with a reference model. The reachable state space is
 //! finite, so the BFS runs to a fixpoint: every reachable state is visited and
 //! every letter is applied in every reachable state.
@@ -219,7 +219,7 @@ impl Run {
             self.flags |= F_BROADCAST_MULTI;
         }
         let payload = json!({"n": self.step, "s": "x"});
-        for enc in 0..4u8 {
+        for enc in 0..9u8 {
             for s in self.sinks.values() {
                 s.got.lock().unwrap().clear();
             }
@@ -243,11 +243,22 @@ impl Run {
                     beve::to_vec(&payload).unwrap(),
                 ),
                 2 => (Ok(self.reg.broadcast_notify_utf8(&path, "héllo")), u16::from(BodyFormat::Utf8), "héllo".as_bytes().to_vec()),
-                _ => (
+                3 => (
                     Ok(self.reg.broadcast_notify_raw(&path, BodyFormat::RawBinary, &[0, 255, 7])),
                     u16::from(BodyFormat::RawBinary),
                     vec![0, 255, 7],
                 ),
+                // raw bytes under the other format tags: delivered byte for byte whatever they are
+                // (ill-formed UTF-8 under the UTF-8 tag, no JSON under the JSON tag, no BEVE under the BEVE tag, empty)
+                4 => (
+                    Ok(self.reg.broadcast_notify_raw(&path, BodyFormat::Utf8, &[0x61, 0x80, 0x62, 0xc0, 0xaf, 0x63, 0xe2, 0x82])),
+                    u16::from(BodyFormat::Utf8),
+                    vec![0x61, 0x80, 0x62, 0xc0, 0xaf, 0x63, 0xe2, 0x82],
+                ),
+                5 => (Ok(self.reg.broadcast_notify_raw(&path, BodyFormat::Json, b"{not json \xff")), u16::from(BodyFormat::Json), b"{not json \xff".to_vec()),
+                6 => (Ok(self.reg.broadcast_notify_raw(&path, BodyFormat::Beve, &[0xff, 0xfe, 0x00])), u16::from(BodyFormat::Beve), vec![0xff, 0xfe, 0x00]),
+                7 => (Ok(self.reg.broadcast_notify_raw(&path, BodyFormat::Utf8, b"")), u16::from(BodyFormat::Utf8), Vec::new()),
+                _ => (Ok(self.reg.broadcast_notify_utf8(&path, "")), u16::from(BodyFormat::Utf8), Vec::new()),
             };
             let res = match res {
                 Ok(r) => r,
@@ -383,7 +394,7 @@ pub fn run(tier: Tier) -> ! {
             "broadcast_with_refusing_sink": b.flag_counts[4] + t.flag_counts[4],
             "peer_reinserted_with_new_handle": b.flag_counts[5] + t.flag_counts[5],
         },
-        "rule": "BFS to a fixpoint over the finite state space of 3 peers x 3 keys (merging on model state + every observer's answer), plus every un-merged history of the tree depth; after every step get/get_by/key_for/aliases_for/len/peers and all four broadcast encodings (one sink refusing every other notification it is handed) are compared with the reference model",
+        "rule": "BFS to a fixpoint over the finite state space of 3 peers x 3 keys (merging on model state + every observer's answer), plus every un-merged history of the tree depth; after every step get/get_by/key_for/aliases_for/len/peers and all nine broadcast forms (json, beve, utf8, raw; raw bytes that are not well-formed for their format tag; empty bodies) (one sink refusing every other notification it is handed) are compared with the reference model",
     });
     ctx.finish(
         "model_checking",
